@@ -242,10 +242,24 @@ class Capture(object):
     self.loader.load_source = self._real_l
 
 
+WRAPS_SRC = '''
+import functools as _functools
+def _vf_deco(fn):
+    @_functools.wraps(fn)
+    def wrapper(*a, **k):
+        r_ = 0
+        for i_ in range(1):
+            r_ += 1
+        return fn(*a, **k)
+    return wrapper
+fw = _vf_deco(f)
+'''
+
+
 def judge(cid, src, inputs, feats, recursive):
   import malt
   out = {'case': cid, 'verdict': 'ok', 'counters': {}}
-  mc = diff.load_instance(src + stream.CALLER_SRC, 'c')
+  mc = diff.load_instance(src + stream.CALLER_SRC + WRAPS_SRC, 'c')
   fs = stream.features(feats)
   probs = []
   try:
@@ -265,8 +279,16 @@ def judge(cid, src, inputs, feats, recursive):
         # run it so that recursively converted callees are transformed as well
         for a in inputs[:3]:
           diff.run(g, mc, a)
-        # to_code vs the module actually loaded for to_graph
-        code_text = malt.to_code(mc.f, recursive=recursive, experimental_optional_features=fs)
+        # to_code vs the module actually loaded for to_graph; also for a functools.wraps wrapper around f (it
+        # borrows f's name, qualname, docstring and carries __wrapped__)
+        targets = [(mc.f, g)]
+        try:
+          targets.append((mc.fw, malt.to_graph(mc.fw, recursive=recursive, experimental_optional_features=fs)))
+          out['counters']['wraps_wrappers_converted'] = 1
+        except Exception as e:  # pylint:disable=broad-except
+          out['counters']['wraps_wrapper_not_convertible'] = 1
+      for subject, g in (targets if not probs else []):
+        code_text = malt.to_code(subject, recursive=recursive, experimental_optional_features=fs)
         fname = g.__code__.co_filename
         loaded = [s for fn, s in cap.sources if fn == fname]
         if len(loaded) != 1:
@@ -277,9 +299,9 @@ def judge(cid, src, inputs, feats, recursive):
           if on_disk != loaded[0]:
             probs.append('file on disk differs from the source handed to load_source')
           tree = ast.parse(loaded[0])
-          defs = [n for n in ast.walk(tree) if isinstance(n, ast.FunctionDef) and n.name == g.__name__]
+          defs = [n for n in ast.walk(tree) if isinstance(n, ast.FunctionDef) and n.name == g.__code__.co_name]
           if len(defs) != 1:
-            probs.append('loaded module defines %r %d times' % (g.__name__, len(defs)))
+            probs.append('loaded module defines %r %d times' % (g.__code__.co_name, len(defs)))
           else:
             seg = ast.get_source_segment(loaded[0], defs[0], padded=True)
             if textwrap.dedent(seg).strip() != code_text.strip():
@@ -288,6 +310,7 @@ def judge(cid, src, inputs, feats, recursive):
             out['counters']['to_code_compared'] = 1
           if inspect.getsourcefile(g) != fname:
             probs.append('inspect source file of converted function is %r, code file %r' % (inspect.getsourcefile(g), fname))
+      if not probs or True:
         ntrees = 0
         nnodes = 0
         for t in cap.trees:
